@@ -228,11 +228,7 @@ func (s *State) symJSONUnmarshalString(elems []Value, target Ptr) Value {
 				}
 				var hex []byte
 				for k := 2; k <= 5; k++ {
-					c, ok := elems[i+k].(uint64)
-					if !ok {
-						s.abort("json string model: symbolic hex digit in \\u escape")
-					}
-					hex = append(hex, byte(c))
+					hex = append(hex, s.concreteByte(elems[i+k], "hex digit of a \\u escape"))
 				}
 				var dec string
 				if err := jsonUnmarshalHost(`"\u`+string(hex)+`"`, &dec); err != nil {
@@ -280,4 +276,42 @@ func (s *State) symJSONUnmarshalString(elems []Value, target Ptr) Value {
 	}
 	s.store(target, s.normStr(out))
 	return Iface{}
+}
+
+// concreteByte returns the value of a byte, forking over its feasible values
+// when it is symbolic (bounded: at most 32 values).
+func (s *State) concreteByte(b Value, what string) byte {
+	switch x := b.(type) {
+	case uint64:
+		return byte(x)
+	case *Term:
+		if x.IsConst() {
+			return byte(x.UVal)
+		}
+		if x.Op != "var" {
+			s.abort("concreteByte: %s is a compound term", what)
+		}
+		dom := s.byteDomain(x)
+		var vals []int
+		for v := 0; v < 256; v++ {
+			if dom.has(v) {
+				vals = append(vals, v)
+			}
+		}
+		if len(vals) == 0 {
+			panic(skipReq{msg: "infeasible path (empty byte domain)"})
+		}
+		if len(vals) == 1 {
+			return byte(vals[0])
+		}
+		if len(vals) > 32 {
+			s.abort("unwinding bound: %d feasible values for %s", len(vals), what)
+		}
+		p := s.W.Pool
+		s.fork("byte:"+x.Name, len(vals), func(n *State, i int) {
+			n.assume(p.Eq(x, p.BVConst(uint64(vals[i]), 8)))
+		})
+	}
+	s.abort("concreteByte: %T", b)
+	return 0
 }
